@@ -9,6 +9,7 @@ from typing import List, Tuple, Type, Generator, Optional
 assert sys.version_info >= (3, 11)
 
 from ._lowlevel import FrameDetails
+from . import _verif
 
 
 # Reference for the frame changes in 3.11:
@@ -157,6 +158,8 @@ def inspect_frame(frame: FrameType) -> FrameDetails:
     # executing on another thread.
     for _ in range(10):
         lasti_before = frame.f_lasti
+        if _verif.ENABLED:
+            _verif.checkpoint("snap:lasti", frame=frame, lasti=lasti_before)
         for start, end, _, depth, _ in _parse_exception_table(co):
             if start <= lasti_before <= end:
                 handler_depth = depth
@@ -215,6 +218,8 @@ def inspect_frame(frame: FrameType) -> FrameDetails:
             details.stack = []
             if frame_owner != FRAME_OWNED_BY_FRAME_OBJECT:
                 for i in range(stack_len):
+                    if _verif.ENABLED:
+                        _verif.checkpoint("snap:slot", frame=frame, index=i)
                     # Assert that the extent of stack validity still matches
                     # what we thought before. (Note it's fine if the function
                     # has continued execution and happened to wind up in the
@@ -242,8 +247,12 @@ def inspect_frame(frame: FrameType) -> FrameDetails:
             if frame.f_lasti == lasti_before:
                 raise
             # otherwise this was probably a concurrent modification, try again
+            if _verif.ENABLED:
+                _verif.checkpoint("snap:retry", frame=frame, lasti=lasti_before)
             continue
 
+        if _verif.ENABLED:
+            _verif.checkpoint("snap:ok", frame=frame, lasti=lasti_before)
         # we got a consistent snapshot
         lasti = lasti_before
         break
